@@ -12,4 +12,5 @@ for l in open('/verif/properties.jsonl'):
     if p['id']==sys.argv[1]:
         print("Property %s — %s\n\n%s\n\nQuantified over: %s" % (p['id'],p['title'],p['statement'],p['quantifier']['text']))
 PY
+git -C /repo rev-parse HEAD > "$D/BASE"
 echo "$D"
